@@ -251,7 +251,8 @@ def main():
   rep.assumptions += ["tf reductions (max / mean) and float32 log are not modelled: the checker only uses the scale the quantizer exposes after the call",
                       "'auto' no-clipping is judged with a 2^-18 relative band on |x|/scale (float32 division)",
                       "the consumer relation of model_save_quantized_weights (utils.py:335-359) is covered by C14"]
-  return rep.finish(vlib.TRUSTED_COMMON + ["model Quant/AutoScale.v is hand-written; tie = certified relational checker evaluated on the implementation's inputs/outputs/scales"])
+  return rep.finish(vlib.TRUSTED_COMMON + ["translator tools/translate/lingen.py regenerates coq/gen/LinGen.v (quantized_linear: clip bounds and the alpha='auto' scale formula with the group maximum as a parameter); Link/LinAutoLink.v proves the covering theorems on it; the reduction K.max over the scale axes and the auto_po2 refinement loop are decided by the relational checker only",
+                                          "model Quant/AutoScale.v is hand-written; tie = certified relational checker evaluated on the implementation's inputs/outputs/scales"])
 
 
 if __name__ == "__main__":
